@@ -866,7 +866,22 @@ func (s *Sim) completeDial(o *op) {
 		verdict = s.DialHook(o.network, o.from, o.to)
 	}
 	rec := DialRec{Seq: s.Seq, From: o.from, To: o.to, Network: o.network}
-	l, ok := s.listeners[o.to]
+	lkey := o.to
+	if o.network == "udp" || o.network == "udp4" || o.network == "udp6" {
+		lkey = "udp:" + o.to
+	}
+	l, ok := s.listeners[lkey]
+	if !ok && lkey != o.to && verdict == DialDefault {
+		// connecting a UDP socket always succeeds; datagrams to nowhere vanish
+		a, b := s.pair(s.uniq(o.from+">"+lkey), o.from, o.to, false)
+		b.Owned = true
+		rec.Verdict, rec.End = "udp-void", a
+		s.DialLog = append(s.DialLog, rec)
+		s.J.Add(s, "dial", "%s udp to nowhere", a.Name)
+		o.rc = a
+		s.finish(o)
+		return
+	}
 	switch {
 	case verdict == DialBlackhole:
 		rec.Verdict = "blackhole"
